@@ -108,8 +108,8 @@ def run(c):
         script += s
         edges += ne * len(algs)
         walks += nw * len(algs)
-        # the quick tier replays a third of the walks in the debug build
-        script_dbg += s if c.thorough else s3
+        # the debug build replays a third of the walks
+        script_dbg += s3
     spath = os.path.join(wd, "hash.script")
     open(spath, "w").write(script)
     spath_dbg = os.path.join(wd, "hash-dbg.script")
@@ -122,11 +122,15 @@ def run(c):
         for driver, args in (("hash-script", ["--script", spath_dbg if build == "std-dbg" else spath]), ("hash-rand", ["--tier", c.tier])):
             trace = os.path.join(wd, "%s-%s.ndjson" % (driver, build))
             vlib.run_harness(binary, [driver, "--seed", str(c.seed)] + args, out=trace)
-            recs, eps, r, _ = vlib.validate_episodes(c, "TraceHashBuf", trace, _describe(build), _canary, "%s (%s)" % (driver, build))
-            if "REFMISMATCH" in r["out"]:
-                raise vlib.ToolError("harness reference bookkeeping disagrees with the monitor's ghost message (harness bug)")
-            traces += len(eps)
-            c.add_events([e for e in recs if e["ev"] in ("upd", "clone", "reset", "fin", "finreset")], key=lambda e: {k: v for k, v in e.items() if k != "k"}, sample=1)
+            # large (thorough) traces are validated in shards cut at episode boundaries
+            for shard, first, cnt in vlib.split_trace(trace, max_events=60000):
+                recs, eps, r, _ = vlib.validate_episodes(c, "TraceHashBuf", shard, _describe(build), _canary, "%s (%s)" % (driver, build), workers=12, timeout=6000)
+                if "REFMISMATCH" in r["out"]:
+                    raise vlib.ToolError("harness reference bookkeeping disagrees with the monitor's ghost message (harness bug)")
+                traces += len(eps)
+                c.add_events([e for e in recs if e["ev"] in ("upd", "clone", "reset", "fin", "finreset")], key=lambda e: {k: v for k, v in e.items() if k != "k"}, sample=1)
+                os.remove(shard)
+                del recs, eps
             os.remove(trace)
     c.cov["traces_validated_against_impl"] = traces
     c.cov["exhaustive_small_model"] = True
